@@ -56,10 +56,13 @@ struct qt_ap_workunit {
 static aligned_t qt_ap_worker(struct qt_ap_wargs *restrict args)
 {
     while (1) {
-        struct qt_ap_workunit *restrict const wu =
+        /* read the flag before polling: an empty poll only means "finished" if
+         * all work had been queued before the poll began */
+        const aligned_t                       finished = *(volatile aligned_t *)args->no_more_work;
+        struct qt_ap_workunit *restrict const wu       =
             qdqueue_dequeue(args->work_queue);
         if (wu == NULL) {
-            if (args->no_more_work) {
+            if (finished) {
                 MACHINE_FENCE;
                 qthread_incr(args->donecount, 1);
                 break;
